@@ -68,6 +68,11 @@ CHECKS = {
                     'gone. Bounded: n <= 2/3 calls, <= 3/4 events.',
             'ref': 'DESIGN.md 2/C08', 'note': NOTE + ' Virtual clock (twisted task.Clock) replaces the reactor.',
             'technique': SYM + ' of event sequences against a reference model'},
+    'C10': {'text': 'Real handleMethodCallMessage on calls built by the real constructor and parsed by the real parser, with '
+                    'symbolic serial (u32), expectReply and argument, and symbolic selectors for path / interface / member / '
+                    'signature over an exported class with overloaded, inherited and caller-aware members; a reference dispatch '
+                    'table decides replies (count, addressing, kind, encoding, error naming) and whether user code may run.',
+            'ref': 'DESIGN.md 2/C10', 'note': NOTE, 'technique': SYM + ' against a reference dispatch table'},
 }
 _TODO = 'check not built yet in this revision (planned, see DESIGN.md section 2)'
 NOT_APPLICABLE = {('C%02d' % i): _TODO for i in range(1, 21)}
